@@ -93,6 +93,10 @@ type Results struct {
 	PerHarness    map[string]*HarnessStats
 	InitWarn      []string
 	maxViolPerKey int
+	maxViolHits   int // stop exploring once this many failing assertion instances were seen (the check is lost anyway; go to replay)
+	violHits      int
+	stopFlag      int32
+	StopWhy       string
 	wantVectors   int
 }
 
@@ -105,7 +109,7 @@ type HarnessStats struct {
 }
 
 func NewResults() *Results {
-	return &Results{violKeys: map[string]int{}, Reach: map[string]map[string]int64{}, Bounds: map[string]int64{}, Funcs: map[string]int64{}, FuncInstr: map[string]int{}, Stubs: map[string]int64{}, vecPerHarness: map[string]int{}, PerHarness: map[string]*HarnessStats{}, maxViolPerKey: 1, wantVectors: 3}
+	return &Results{violKeys: map[string]int{}, Reach: map[string]map[string]int64{}, Bounds: map[string]int64{}, Funcs: map[string]int64{}, FuncInstr: map[string]int{}, Stubs: map[string]int64{}, vecPerHarness: map[string]int{}, PerHarness: map[string]*HarnessStats{}, maxViolPerKey: 2, maxViolHits: 24, wantVectors: 3}
 }
 
 func (r *Results) hs(h string) *HarnessStats {
@@ -115,6 +119,17 @@ func (r *Results) hs(h string) *HarnessStats {
 		r.PerHarness[h] = s
 	}
 	return s
+}
+
+func (r *Results) stopped() bool { return atomic.LoadInt32(&r.stopFlag) == 1 }
+
+// stop ends the exploration at the next path boundary (wall budget).
+func (r *Results) stop(why string) {
+	if atomic.CompareAndSwapInt32(&r.stopFlag, 0, 1) {
+		r.mu.Lock()
+		r.StopWhy = why
+		r.mu.Unlock()
+	}
 }
 
 func (r *Results) inconclusive(msg string) {
@@ -483,6 +498,10 @@ func (R *Results) addViolation(v Violation) {
 	R.mu.Lock()
 	defer R.mu.Unlock()
 	key := v.Harness + "|" + v.Msg
+	R.violHits++
+	if R.violHits >= R.maxViolHits && atomic.CompareAndSwapInt32(&R.stopFlag, 0, 1) {
+		R.StopWhy = fmt.Sprintf("exploration stopped after %d failing assertion instances (counterexamples go to native replay)", R.violHits)
+	}
 	if R.violKeys[key] >= R.maxViolPerKey {
 		R.violKeys[key]++
 		return
@@ -634,6 +653,9 @@ func (x *Exec) runJob(j job, fn *ssa.Function) {
 	x.asserted = 0
 	for {
 		x.runPath(fn)
+		if x.R.stopped() {
+			break
+		}
 		// backtrack
 		i := len(x.trail) - 1
 		for i >= 0 && x.trail[i].cur+1 >= len(x.trail[i].opts) {
@@ -797,7 +819,9 @@ func worker(id int, P *Program, q *workQueue, R *Results, cfg Config, wg *sync.W
 			break
 		}
 		fn := P.pkg.Func(j.harness)
-		if fn == nil {
+		if R.stopped() {
+			// drain
+		} else if fn == nil {
 			R.inconclusive("no such harness: " + j.harness)
 		} else {
 			x.runJob(j, fn)
